@@ -39,7 +39,7 @@ pub fn out_dir() -> String {
     std::env::var("VERIF_OUT").unwrap_or_else(|_| VERIF_DIR.to_string())
 }
 /// a single generated case normally takes microseconds to milliseconds
-pub const HANG_SECS: u64 = 30;
+pub const HANG_SECS: u64 = 90;
 
 /// A case did not return. For C06 ("never panics or hangs") that is the property; for every other
 /// property it is reported as inconclusive (exit 2), never as a violation.
